@@ -38,7 +38,35 @@ fn group_obs(ser: &str, epoch: &str) -> String {
   }
 }
 
+/// Sharing keys with a zero first or last byte (one measurement in 128): found by search at threshold 1, where the key
+/// is the share value; the grouping call must return the clients' key for them like for any other
+fn gen_c17_zero_keys(out: &mut Out) {
+  let epoch = "2026-10-01";
+  let mut found = 0;
+  for i in 0..4000u32 {
+    if found >= 6 {
+      break;
+    }
+    let m = format!("page/{}", i).into_bytes();
+    let js = match guarded(|| create_share(&m, 1, epoch)) { Some(s) => s, None => continue };
+    let (k, sh, _) = match json_fields(&js) { Some(f) => f, None => continue };
+    let sb = match BASE64_STANDARD.decode(&sh) { Ok(b) => b, Err(_) => continue };
+    if sb.len() < 48 || !(sb[32] == 0 || sb[47] == 0) {
+      continue;
+    }
+    found += 1;
+    let x = share_x(&sb).unwrap_or_default();
+    out.case(format!("wasm.create {} {} {} {}", hex(&m), 1, hex(epoch.as_bytes()), hex(&x)), hex(js.as_bytes()), Ok(()));
+    let obs = group_obs(&sh, epoch);
+    let v = if obs == format!("some {}", hex(k.as_bytes())) { Ok(()) } else { Err(format!("measurement {}: the sharing key has a zero {} byte and the grouping call does not return the clients' key", String::from_utf8_lossy(&m), if sb[32] == 0 { "first" } else { "last" })) };
+    out.case(format!("wasm.group {} {}", hex(sh.as_bytes()), hex(epoch.as_bytes())), obs, v);
+  }
+}
+
 pub fn gen_c17(seed: u64, thorough: bool, only: Option<u64>, out: &mut Out) {
+  if only.is_none() {
+    gen_c17_zero_keys(out);
+  }
   let groups: u64 = if thorough { 300 } else { 30 };
   for gi in 0..groups {
     if only.map_or(false, |o| o != gi) {
